@@ -98,12 +98,16 @@ def classify_crash(rc, err, out):
     m = re.search(r"ThreadSanitizer: (data race|[a-z -]+)", err)
     if m:
         kind = m.group(1).strip().replace(" ", "-")
+        # the site is the library function of the access being reported (the first stack).  The stack of the *previous*
+        # access comes from ThreadSanitizer's bounded history and is sometimes "failed to restore the stack" in a process
+        # that has executed many plans while a fresh replay of the same plan shows it - it is kept out of the signature
         funcs = []
         for blk in re.split(r"\n\s*\n", err):
-            f = REPO_FRAME.search(blk)
-            if f and ("of size" in blk or "Previous" in blk):
-                funcs.append(f.group(1))
-        funcs = sorted(set(funcs))[:2]
+            if "of size" in blk and "Previous" not in blk:
+                f = REPO_FRAME.search(blk)
+                if f:
+                    funcs.append(f.group(1))
+                break
         # a race whose conflicting access sits in the harness itself (top frame under /verif) is a harness bug
         tops = []
         lines = err.splitlines()
